@@ -782,6 +782,259 @@ fn udot(xs: &[f64], ys: &[f64]) -> f64 {
 }
 fn maxabs(v: &[f64]) -> f64 { v.iter().fold(0.0, |m, x| m.max(x.abs())) }
 
+// ------------------------------------------------------------------------------------------------
+// array-level cases: predict_inplace on a pre-filled target against C03/MatModel.v (C03/CorrMat.v)
+// ------------------------------------------------------------------------------------------------
+
+/// ndarray's sequential 1-D dot product (an operand is not a contiguous slice), transliterated
+fn sdot(xs: &[f64], ys: &[f64]) -> f64 {
+    let mut sum = 0.0;
+    for i in 0..xs.len().min(ys.len()) { sum = sum + xs[i] * ys[i]; }
+    sum
+}
+fn dot_as(contig: bool, xs: &[f64], ys: &[f64]) -> f64 { if contig { udot(xs, ys) } else { sdot(xs, ys) } }
+fn rows_contig(x: &Array2<f64>) -> bool { x.nrows() == 0 || x.row(0).as_slice().is_some() }
+
+fn copt(s: Option<String>) -> String { match s { Some(v) => format!("(Some {})", v), None => "None".into() } }
+fn cpairs(t: &[(f64, f64)]) -> String { format!("({})%float", clist(t, |ab| format!("({}, {})", cf64(ab.0), cf64(ab.1)))) }
+fn cvecz(xs: &[i64]) -> String { format!("({})%Z", clist(xs, |x| format!("{}", x))) }
+fn cvecb(xs: &[bool]) -> String { clist(xs, |b| cbool(*b).to_string()) }
+fn cmat(x: &Array2<f64>) -> String { cmat64(&rows_of(&x.view())) }
+
+fn junk_f64(n: usize) -> Array1<f64> { (0..n).map(|i| 1.0e30 + 1.0e15 * i as f64).collect() }
+fn junk_usize(n: usize) -> Array1<usize> { (0..n).map(|i| 7_000_003 + i).collect() }
+fn junk_bool(n: usize) -> Array1<bool> { (0..n).map(|i| i % 3 != 1).collect() }
+fn junk_pr(n: usize) -> Array1<Pr> { (0..n).map(|i| Pr::new_unchecked(0.125 + (i % 5) as f32 * 0.0625)).collect() }
+fn junk_mat(n: usize, k: usize) -> Array2<f64> { Array2::from_shape_fn((n, k), |(i, j)| -1.0e30 - (i * 31 + j) as f64) }
+
+/// predict_inplace on the given target; None = the call panicked
+fn inplace_on<M, T>(m: &M, x: &Array2<f64>, y: T) -> Option<T>
+where M: PredictInplace<Array2<f64>, T> {
+    guarded(AssertUnwindSafe(move || { let mut y = y; m.predict_inplace(x, &mut y); y })).ok()
+}
+
+/// the batches every array-level case family is run on: (variant, records, length of the target)
+fn mat_variants(pool: &Array2<f64>, layouts: bool, extra_col: bool) -> Vec<(&'static str, Array2<f64>, usize)> {
+    let n = pool.nrows().min(20);
+    let x = pool.slice(s![..n, ..]).to_owned();
+    let mut v: Vec<(&'static str, Array2<f64>, usize)> = vec![("row_major", x.clone(), n)];
+    if layouts { v.push(("column_major", fortran(&x), n)); }
+    v.push(("empty_batch", x.slice(s![..0, ..]).to_owned(), 0));
+    let m = n.min(3);
+    v.push(("target_too_long", x.slice(s![..m, ..]).to_owned(), m + 1));
+    if m > 0 { v.push(("target_too_short", x.slice(s![..m, ..]).to_owned(), m - 1)); }
+    if extra_col {
+        let p = x.ncols();
+        v.push(("extra_column", Array2::from_shape_fn((m, p + 1), |(i, j)| if j < p { x[(i, j)] } else { 1.0 }), m));
+    }
+    v
+}
+
+fn mat_case(ctx: &mut Ctx, model: &str, variant: &str, term: String, x: &Array2<f64>, panicked: bool) {
+    let id = ctx.next_id();
+    if !ctx.out.wanted(id) { return; }
+    let desc = format!(
+        "{{\"predictor\": {}, \"model\": \"C03/MatModel.v predict_inplace on a pre-filled target\", \"variant\": {}, \"rows\": {}, \"cols\": {}, \"panicked\": {}, \"batch\": {}}}",
+        jstr(model), jstr(variant), x.nrows(), x.ncols(), panicked, jrows(&rows_of(&x.view()))
+    );
+    ctx.out.bump(&format!("coq_mat_{}", model));
+    ctx.out.bump(&format!("coq_mat_variant_{}", variant));
+    if panicked { ctx.out.bump("coq_mat_panics"); }
+    let tag = format!("predictor_{}", model);
+    let vtag = format!("variant_{}", variant);
+    let key = if x.nrows() >= 2 && !panicked { Some(fnv(desc.as_bytes())) } else { None };
+    ctx.out.case(id, &format!("CMAT {} ({})", cn(id), term), &[&tag, "array_model", &vtag], &desc, key);
+}
+
+/// x.dot(w) + b predictors. link 0: OLS / elastic net; 1, 2, 3: Tweedie GLM identity / log / logit
+fn mat_lin<M>(ctx: &mut Ctx, model: &str, m: &M, link: u64, w: &[f64], b: f64, pool: &Array2<f64>)
+where M: PredictInplace<Array2<f64>, Array1<f64>> {
+    for (variant, x, ny) in mat_variants(pool, true, true) {
+        let contig = rows_contig(&x);
+        let out = inplace_on(m, &x, junk_f64(ny));
+        let mut exps = Vec::new();
+        if link >= 2 && x.ncols() == w.len() {
+            for r in x.rows() {
+                let z = dot_as(contig, &r.to_vec(), w) * 1.0 + b;
+                let a = if link == 2 { z } else { -z };
+                exps.push((a, a.exp()));
+            }
+        }
+        let term = format!("MLin {} {} {} {} {} {} {} {} {}", cn(link), cbool(contig), cn(w.len() as u64), cvec64(w), sf64(b), cpairs(&exps),
+            cmat(&x), cvec64(&junk_f64(ny).to_vec()), copt(out.as_ref().map(|o| cvec64(&o.to_vec()))));
+        mat_case(ctx, model, variant, term, &x, out.is_none());
+    }
+}
+
+fn mat_logit<M>(ctx: &mut Ctx, model: &str, m: &M, w: &[f64], b: f64, thr: f64, pos: usize, neg: usize, pool: &Array2<f64>)
+where M: PredictInplace<Array2<f64>, Array1<usize>> {
+    for (variant, x, ny) in mat_variants(pool, true, true) {
+        let contig = rows_contig(&x);
+        let out = inplace_on(m, &x, junk_usize(ny));
+        let mut exps = Vec::new();
+        if x.ncols() == w.len() {
+            for r in x.rows() { let z = dot_as(contig, &r.to_vec(), w) * 1.0 + b; exps.push((-z, (-z).exp())); }
+        }
+        let term = format!("MLogit {} {} {} {} {} {} {} {} {} {} {}", cbool(contig), cn(w.len() as u64), cvec64(w), sf64(b), sf64(thr), cpairs(&exps),
+            cn(pos as u64), cn(neg as u64), cmat(&x), cvecn(&junk_usize(ny).to_vec()), copt(out.as_ref().map(|o| cvecn(&o.to_vec()))));
+        mat_case(ctx, model, variant, term, &x, out.is_none());
+    }
+}
+
+/// product table: what the same ndarray call returns on the same operands (empty when the shapes do not fit)
+fn prod_table(a: &Array2<f64>, b: &ArrayView2<f64>) -> Array2<f64> {
+    if a.ncols() != b.nrows() { return Array2::zeros((0, 0)); }
+    a.dot(b)
+}
+
+fn mat_mlogit<M>(ctx: &mut Ctx, model: &str, m: &M, w: &Array2<f64>, b: &[f64], classes: &[usize], pool: &Array2<f64>)
+where M: PredictInplace<Array2<f64>, Array1<usize>> {
+    for (variant, x, ny) in mat_variants(pool, false, true) {
+        let out = inplace_on(m, &x, junk_usize(ny));
+        let prod = prod_table(&x, &w.view());
+        let term = format!("MMlogit {} {} {} {} {} {} {} {} {}", cn(w.nrows() as u64), cn(w.ncols() as u64), cmat(w), cvec64(b), cvecn(classes), cmat(&prod),
+            cmat(&x), cvecn(&junk_usize(ny).to_vec()), copt(out.as_ref().map(|o| cvecn(&o.to_vec()))));
+        mat_case(ctx, model, variant, term, &x, out.is_none());
+    }
+}
+
+fn mat_mtl<M>(ctx: &mut Ctx, model: &str, m: &M, w: &Array2<f64>, b: &[f64], pool: &Array2<f64>)
+where M: PredictInplace<Array2<f64>, Array2<f64>> {
+    for (variant, x, ny) in mat_variants(pool, false, true) {
+        let out = inplace_on(m, &x, junk_mat(ny, w.ncols()));
+        let prod = prod_table(&x, &w.view());
+        let term = format!("MMtl {} {} {} {} {} {} {} {}", cn(w.nrows() as u64), cn(w.ncols() as u64), cmat(w), cvec64(b), cmat(&prod),
+            cmat(&x), cn(ny as u64), copt(out.as_ref().map(|o| cmat(o))));
+        mat_case(ctx, model, variant, term, &x, out.is_none());
+    }
+}
+
+fn mat_pca<M>(ctx: &mut Ctx, model: &str, m: &M, mean: &Array1<f64>, e: &Array2<f64>, pool: &Array2<f64>)
+where M: PredictInplace<Array2<f64>, Array2<f64>> {
+    for (variant, x, ny) in mat_variants(pool, false, true) {
+        let y0 = junk_mat(ny, e.nrows());
+        let out = inplace_on(m, &x, y0.clone());
+        let prod = if x.ncols() == mean.len() { prod_table(&(&x - mean), &e.t()) } else { Array2::zeros((0, 0)) };
+        let term = format!("MPca {} {} {} {} {} {} {}", cn(mean.len() as u64), cvec64(&mean.to_vec()), cmat(e), cmat(&prod),
+            cmat(&x), cmat(&y0), copt(out.as_ref().map(|o| cmat(o))));
+        mat_case(ctx, model, variant, term, &x, out.is_none());
+    }
+}
+
+fn mat_pls<M>(ctx: &mut Ctx, model: &str, m: &M, xm: &[f64], xs: &[f64], coef: &Array2<f64>, ym: &[f64], pool: &Array2<f64>)
+where M: PredictInplace<Array2<f64>, Array2<f64>> {
+    for (variant, x, ny) in mat_variants(pool, false, true) {
+        let y0 = junk_mat(ny, coef.ncols());
+        let out = inplace_on(m, &x, y0.clone());
+        let prod = if x.ncols() == xm.len() {
+            let mut xc = &x - &Array1::from(xm.to_vec());
+            xc /= &Array1::from(xs.to_vec());
+            prod_table(&xc, &coef.view())
+        } else { Array2::zeros((0, 0)) };
+        let term = format!("MPls {} {} {} {} {} {} {} {} {} {}", cn(xm.len() as u64), cn(coef.ncols() as u64), cvec64(xm), cvec64(xs), cmat(coef), cvec64(ym), cmat(&prod),
+            cmat(&x), cmat(&y0), copt(out.as_ref().map(|o| cmat(o))));
+        mat_case(ctx, model, variant, term, &x, out.is_none());
+    }
+}
+
+/// naive Bayes; classes = (label, prior, first array, second array) as read from the bincode image
+fn mat_nb<M>(ctx: &mut Ctx, model: &str, m: &M, gaussian: bool, classes: &[(usize, f64, Vec<f64>, Vec<f64>)], pool: &Array2<f64>)
+where M: PredictInplace<Array2<f64>, Array1<usize>> {
+    let mut cls: Vec<&(usize, f64, Vec<f64>, Vec<f64>)> = classes.iter().collect();
+    cls.sort_by_key(|c| c.0);
+    let p = pool.ncols();
+    for (variant, x, ny) in mat_variants(pool, true, false) {
+        let out = inplace_on(m, &x, junk_usize(ny));
+        let term = if gaussian {
+            // sum_axis(Axis(1)) sums lanes when axis 1 has the smallest stride, columns otherwise
+            let lanes = !(x.strides()[0].abs() < x.strides()[1].abs());
+            let mut lns = Vec::new();
+            for c in &cls { for s in &c.3 { let a = 2.0 * std::f64::consts::PI * s; lns.push((a, a.ln())); } }
+            format!("MGnb {} {} {} {} {} {} {}", cbool(lanes), cn(p as u64),
+                clist(&cls, |c| format!("({}, ({}, ({}, ({}, {}))))", cn(c.0 as u64), sf64(c.1), sf64(c.1.ln()), cvec64(&c.2), cvec64(&c.3))),
+                cpairs(&lns), cmat(&x), cvecn(&junk_usize(ny).to_vec()), copt(out.as_ref().map(|o| cvecn(&o.to_vec()))))
+        } else {
+            format!("MMnb {} {} {} {} {}", cbool(rows_contig(&x)),
+                clist(&cls, |c| format!("({}, ({}, ({}, {})))", cn(c.0 as u64), sf64(c.1), sf64(c.1.ln()), cvec64(&c.3))),
+                cmat(&x), cvecn(&junk_usize(ny).to_vec()), copt(out.as_ref().map(|o| cvecn(&o.to_vec()))))
+        };
+        mat_case(ctx, model, variant, term, &x, out.is_none());
+    }
+}
+
+fn mat_ftrl<M>(ctx: &mut Ctx, model: &str, m: &M, w: &[f64], pool: &Array2<f64>)
+where M: PredictInplace<Array2<f64>, Array1<Pr>> {
+    for (variant, x, ny) in mat_variants(pool, true, true) {
+        let contig = rows_contig(&x);
+        let y0 = junk_pr(ny);
+        let out = inplace_on(m, &x, y0.clone());
+        let mut exps = Vec::new();
+        if x.ncols() == w.len() {
+            for r in x.rows() {
+                let z = dot_as(contig, &r.to_vec(), w) * 1.0;
+                let v = z.min(35.0).max(-35.0);
+                let a = if v.is_sign_negative() { v } else { -v };
+                exps.push((a, a.exp()));
+            }
+        }
+        let bits = |a: &Array1<Pr>| -> Vec<i64> { a.iter().map(|p| p.to_bits() as i64).collect() };
+        let term = format!("MFtrl {} {} {} {} {} {} {}", cbool(contig), cn(w.len() as u64), cvec64(w), cpairs(&exps),
+            cmat(&x), cvecz(&bits(&y0)), copt(out.as_ref().map(|o| cvecz(&bits(o)))));
+        mat_case(ctx, model, variant, term, &x, out.is_none());
+    }
+}
+
+/// explicit hyperplane of a linear-kernel SVM (private field): w_j = weighted_sum(e_j), exact
+fn svm_linear_w<T>(m: &Svm<f64, T>, p: usize) -> Vec<f64> {
+    (0..p).map(|j| { let mut e = Array1::<f64>::zeros(p); e[j] = 1.0; m.weighted_sum(&e) }).collect()
+}
+fn mat_svm_reg(ctx: &mut Ctx, model: &str, m: &Svm<f64, f64>, pool: &Array2<f64>) {
+    let w = svm_linear_w(m, pool.ncols());
+    for (variant, x, ny) in mat_variants(pool, true, false) {
+        let out = inplace_on(m, &x, junk_f64(ny));
+        let term = format!("MSvm 0%N {} {} {} {} {} [] None", cvec64(&w), sf64(m.rho), cmat(&x), cvec64(&junk_f64(ny).to_vec()), copt(out.as_ref().map(|o| cvec64(&o.to_vec()))));
+        mat_case(ctx, model, variant, term, &x, out.is_none());
+    }
+}
+fn mat_svm_cls(ctx: &mut Ctx, model: &str, m: &Svm<f64, bool>, pool: &Array2<f64>) {
+    let w = svm_linear_w(m, pool.ncols());
+    for (variant, x, ny) in mat_variants(pool, true, false) {
+        let out = inplace_on(m, &x, junk_bool(ny));
+        let term = format!("MSvm 1%N {} {} {} ([])%float None {} {}", cvec64(&w), sf64(m.rho), cmat(&x), cvecb(&junk_bool(ny).to_vec()), copt(out.as_ref().map(|o| cvecb(&o.to_vec()))));
+        mat_case(ctx, model, variant, term, &x, out.is_none());
+    }
+}
+fn mat_kmeans<M>(ctx: &mut Ctx, model: &str, m: &M, cents: &[Vec<f64>], pool: &Array2<f64>)
+where M: PredictInplace<Array2<f64>, Array1<usize>> {
+    for (variant, x, ny) in mat_variants(pool, true, false) {
+        let out = inplace_on(m, &x, junk_usize(ny));
+        let term = format!("MKm {} {} {} {}", cmat64(cents), cmat(&x), cvecn(&junk_usize(ny).to_vec()), copt(out.as_ref().map(|o| cvecn(&o.to_vec()))));
+        mat_case(ctx, model, variant, term, &x, out.is_none());
+    }
+}
+fn mat_tree<M>(ctx: &mut Ctx, model: &str, m: &M, tree: &str, pool: &Array2<f64>)
+where M: PredictInplace<Array2<f64>, Array1<usize>> {
+    for (variant, x, ny) in mat_variants(pool, true, false) {
+        let out = inplace_on(m, &x, junk_usize(ny));
+        let term = format!("MTree {} {} {} {}", tree, cmat(&x), cvecn(&junk_usize(ny).to_vec()), copt(out.as_ref().map(|o| cvecn(&o.to_vec()))));
+        mat_case(ctx, model, variant, term, &x, out.is_none());
+    }
+}
+/// isotonic regression: the pool in its non-monotone order plus a NaN query (its target element is left untouched)
+fn mat_iso<M>(ctx: &mut Ctx, model: &str, m: &M, reg: &[f64], resp: &[f64], pool: &Array2<f64>, rng: &mut Sm64)
+where M: PredictInplace<Array2<f64>, Array1<f64>> {
+    let mut q: Vec<f64> = pool.column(0).to_vec();
+    rng.shuffle(&mut q);
+    q.truncate(24);
+    q.insert(q.len() / 2, f64::NAN);
+    let qa = Array2::from_shape_vec((q.len(), 1), q).unwrap();
+    for (variant, x, ny) in mat_variants(&qa, true, true) {
+        let out = inplace_on(m, &x, junk_f64(ny));
+        let term = format!("MIso {} {} {} {} {}", cvec64(reg), cvec64(resp), cmat(&x), cvec64(&junk_f64(ny).to_vec()), copt(out.as_ref().map(|o| cvec64(&o.to_vec()))));
+        mat_case(ctx, model, variant, term, &x, out.is_none());
+    }
+}
+
 fn ext_case(ctx: &mut Ctx, model: &str, ok: bool, what: &str, detail: &str) {
     let id = ctx.next_id();
     if !ctx.out.wanted(id) { return; }
@@ -891,6 +1144,7 @@ fn kmeans_models(ctx: &mut Ctx, rng: &mut Sm64, ninst: usize) {
             ctx.out.bump("coq_kmeans");
             ctx.out.case(id, &coq, &["predictor_kmeans"], &desc, Some(fnv(desc.as_bytes())));
         }
+        mat_kmeans(ctx, "kmeans", &model, &cents, &pool);
         {
             let pr: Array1<usize> = model.predict(&pool);
             let bad = (0..pool.nrows()).find(|&i| {
@@ -975,6 +1229,7 @@ fn linear_models(ctx: &mut Ctx, rng: &mut Sm64, ninst: usize) {
                 lin_case(ctx, "ols", 0, &w, b, &pool, &o.to_vec(), &[]);
                 let o: Array1<f64> = m.predict(&poolf);
                 lin_case(ctx, "ols", 0, &w, b, &poolf, &o.to_vec(), &[]);
+                mat_lin(ctx, "ols", &m, 0, &w, b, &pool);
                 let pred = mk_pred!(m, Array1<f64>, f64, view);
                 metamorph(ctx, rng, "ols", &format!("p={}", p), &pred, &pool, &Xl::real(maxabs(&w) + b.abs()));
             }
@@ -989,6 +1244,7 @@ fn linear_models(ctx: &mut Ctx, rng: &mut Sm64, ninst: usize) {
                 lin_case(ctx, "elasticnet", 0, &w, b, &pool, &o.to_vec(), &[]);
                 let o: Array1<f64> = m.predict(&poolf);
                 lin_case(ctx, "elasticnet", 0, &w, b, &poolf, &o.to_vec(), &[]);
+                mat_lin(ctx, "elasticnet", &m, 0, &w, b, &pool);
                 let pred = mk_pred!(m, Array1<f64>, f64, view);
                 metamorph(ctx, rng, "elasticnet", &format!("p={}", p), &pred, &pool, &Xl::real(maxabs(&w) + b.abs()));
             }
@@ -1002,6 +1258,7 @@ fn linear_models(ctx: &mut Ctx, rng: &mut Sm64, ninst: usize) {
             Ok(Ok(m)) => {
                 let o: Array2<f64> = m.predict(&pool);
                 aff_case(ctx, "multitask_elasticnet", 0, &[], &[], m.hyperplane(), &m.intercept().to_vec(), &pool, &rows_of(&o.view()), &[]);
+                mat_mtl(ctx, "multitask_elasticnet", &m, m.hyperplane(), &m.intercept().to_vec(), &pool);
                 let sc = maxabs(m.hyperplane().as_slice().unwrap_or(&[1.0])) + maxabs(&m.intercept().to_vec());
                 let pred = mk_pred!(m, Array2<f64>, f64, view);
                 metamorph(ctx, rng, "multitask_elasticnet", &format!("p={} tasks={}", p, t), &pred, &pool, &Xl::real(sc));
@@ -1034,6 +1291,7 @@ fn linear_models(ctx: &mut Ctx, rng: &mut Sm64, ninst: usize) {
                         let bad = pool.rows().into_iter().zip(o.iter()).position(|(r, v)| (udot(r.as_slice().unwrap(), &w) * 1.0 + b).exp().to_bits() != v.to_bits());
                         ext_case(ctx, name, bad.is_none(), "predict(x) = exp(unrolled_dot(x, coef) + intercept)", &format!("first differing row {:?} coef {:?} intercept {:e}", bad.map(|i| pool.row(i).to_vec()), w, b));
                     }
+                    mat_lin(ctx, name, &m, if link == Link::Identity { 1 } else { 2 }, &w, b, &pool);
                     let mut xl = Xl::real(maxabs(&w) + b.abs());
                     xl.expo = link != Link::Identity;
                     let pred = mk_pred!(m, Array1<f64>, f64, view);
@@ -1124,6 +1382,7 @@ fn isotonic_models(ctx: &mut Ctx, rng: &mut Sm64, ninst: usize) {
             ctx.out.bump("coq_isotonic");
             ctx.out.case(id, &coq, &["predictor_isotonic"], &desc, Some(fnv(desc.as_bytes())));
         }
+        { let mut ir = rng.fork(); mat_iso(ctx, "isotonic", &model, &reg, &resp, &pool, &mut ir); }
         let pred = mk_pred!(model, Array1<f64>, f64, view);
         metamorph(ctx, rng, "isotonic", &format!("knots={}", reg.len()), &pred, &pool, &Xl::exact());
     }
@@ -1162,6 +1421,7 @@ fn logistic_models(ctx: &mut Ctx, rng: &mut Sm64, ninst: usize) {
                     &format!("threshold {:e} first differing row {:?}", thr, bad.map(|i| pool.row(i).to_vec())));
                 let sc = maxabs(&w) + b.abs();
                 for (mm, thr, nm) in [(&m, 0.5, "logistic"), (&m2, thr, "logistic_threshold_tie")] {
+                    mat_logit(ctx, nm, mm, &w, b, thr, pos, neg, &pool);
                     let near = move |row: &[f64]| {
                         let r = Array2::from_shape_vec((1, row.len()), row.to_vec()).unwrap();
                         !((mm.predict_probabilities(&r)[0] - thr).abs() > 1e-9)
@@ -1185,6 +1445,7 @@ fn logistic_models(ctx: &mut Ctx, rng: &mut Sm64, ninst: usize) {
                 let classes = m.classes().to_vec();
                 let idx: Vec<usize> = o.iter().map(|l| classes.iter().position(|c| c == l).unwrap_or(usize::MAX >> 8)).collect();
                 aff_case(ctx, "multi_logistic", 1, &[], &[], m.params(), &m.intercept().to_vec(), &pool3, &[], &idx);
+                mat_mlogit(ctx, "multi_logistic", &m, m.params(), &m.intercept().to_vec(), &classes, &pool3);
                 let wv = m.params().clone();
                 let bv = m.intercept().clone();
                 let sc = wv.iter().fold(0.0f64, |a, v| a.max(v.abs())) + maxabs(&bv.to_vec());
@@ -1244,6 +1505,7 @@ fn svm_models(ctx: &mut Ctx, rng: &mut Sm64, ninst: usize) {
                 ext_case(ctx, "svm_classification", bad.is_none(), "predict(x) = (weighted_sum(x) - rho >= 0)", &format!("{} first differing row {:?}", inst_name, bad.map(|i| pool.row(i).to_vec())));
                 let badrow = (0..pool.nrows()).find(|&i| { let one: bool = m.predict(pool.row(i)); let own: bool = m.predict(pool.row(i).to_owned()); one != o[i] || own != o[i] });
                 row_form_check(ctx, "svm_classification", badrow, &pool);
+                if let Kern::Lin = kern { mat_svm_cls(ctx, "svm_classification", &m, &pool); }
                 let asum: f64 = m.alpha.iter().map(|a| a.abs()).sum::<f64>() + m.rho.abs();
                 let mm = &m;
                 let near = move |row: &[f64]| !((mm.weighted_sum(&Array1::from(row.to_vec())) - mm.rho).abs() > 1e-9 * (1.0 + asum));
@@ -1293,6 +1555,7 @@ fn svm_models(ctx: &mut Ctx, rng: &mut Sm64, ninst: usize) {
                 ext_case(ctx, "svm_regression", bad.is_none(), "predict(x) = weighted_sum(x) - rho", &format!("{} first differing row {:?}", inst_name, bad.map(|i| pool.row(i).to_vec())));
                 let badrow = (0..pool.nrows()).find(|&i| { let one: f64 = m.predict(pool.row(i)); let own: f64 = m.predict(pool.row(i).to_owned()); one.to_bits() != o[i].to_bits() || own.to_bits() != o[i].to_bits() });
                 row_form_check(ctx, "svm_regression", badrow, &pool);
+                if let Kern::Lin = kern { mat_svm_reg(ctx, "svm_regression", &m, &pool); }
                 let asum: f64 = m.alpha.iter().map(|a| a.abs()).sum::<f64>() * (1.0 + maxabs(xa.as_slice().unwrap())) + m.rho.abs();
                 let pred = mk_pred!(m, Array1<f64>, f64, view);
                 metamorph(ctx, rng, "svm_regression", &inst_name, &pred, &pool, &Xl::real(asum));
@@ -1373,6 +1636,7 @@ fn tree_models(ctx: &mut Ctx, rng: &mut Sm64, ninst: usize) {
             ctx.out.bump_by("coq_tree_rows_on_split_value", (extra.len() / 3) as u64);
             ctx.out.case(id, &coq, &["predictor_decision_tree"], &desc, if splits.is_empty() { None } else { Some(fnv(desc.as_bytes()) ^ id) });
         }
+        { let mut sp = Vec::new(); let term = tree_term(model.root_node(), &mut sp); mat_tree(ctx, "decision_tree", &model, &term, &pool); }
         let pred = mk_pred!(model, Array1<usize>, f64, view);
         metamorph(ctx, rng, "decision_tree", &format!("p={} depth<={} splits={}", p, depth, splits.len()), &pred, &pool, &Xl::exact());
         if inst == 0 {
@@ -1436,6 +1700,7 @@ fn bayes_models(ctx: &mut Ctx, rng: &mut Sm64, ninst: usize) {
                     let b: f64 = row.iter().zip(theta.iter().zip(sigma)).map(|(x, (t, s))| (x - t) * (x - t) / s).sum();
                     -0.5 * a - 0.5 * b + c.1.ln()
                 });
+                mat_nb(ctx, "gaussian_nb", &m, true, &classes, &pool);
                 ext_case(ctx, "gaussian_nb", bad.is_none(), "predict(x) attains the maximal joint log-likelihood of the fitted class statistics", &format!("first differing row {:?}", bad.map(|i| pool.row(i).to_vec())));
                 let pred = mk_pred!(m, Array1<usize>, f64, view);
                 let xl = Xl { exact: false, scale: 1.0, near: None, expo: false };
@@ -1452,6 +1717,7 @@ fn bayes_models(ctx: &mut Ctx, rng: &mut Sm64, ninst: usize) {
                 let classes = match bincode::serialize(&m).ok().and_then(|b| nb_classes(&b)) { Some(c) => c, None => panic!("cannot read the class statistics of MultinomialNb from its bincode image") };
                 let o: Array1<usize> = m.predict(&pool);
                 let bad = nb_argmax_check(&pool, &o, &classes, &|row, c| row.iter().zip(&c.3).map(|(x, l)| x * l).sum::<f64>() + c.1.ln());
+                mat_nb(ctx, "multinomial_nb", &m, false, &classes, &pool);
                 ext_case(ctx, "multinomial_nb", bad.is_none(), "predict(x) attains the maximal joint log-likelihood x.feature_log_prob + ln prior", &format!("first differing row {:?}", bad.map(|i| pool.row(i).to_vec())));
                 let pred = mk_pred!(m, Array1<usize>, f64, view);
                 let xl = Xl { exact: false, scale: 1.0, near: None, expo: false };
@@ -1489,6 +1755,7 @@ fn ftrl_models(ctx: &mut Ctx, rng: &mut Sm64, ninst: usize) {
         let o: Array1<Pr> = m.predict(&pool);
         let bad = (0..pool.nrows()).find(|&i| o[i].to_bits() != (ftrl_sigmoid(udot(pool.row(i).as_slice().unwrap(), &w)) as f32).to_bits());
         ext_case(ctx, "ftrl", bad.is_none(), "predict(x) = stable_sigmoid(unrolled_dot(x, get_weights())) as f32", &format!("p={} first differing row {:?} weights {:?}", p, bad.map(|i| pool.row(i).to_vec()), w));
+        mat_ftrl(ctx, "ftrl", &m, &w, &pool);
         let pred = mk_pred!(m, Array1<Pr>, f64, view);
         metamorph(ctx, rng, "ftrl", &format!("p={}", p), &pred, &pool, &Xl::real(maxabs(&w)));
     }
@@ -1510,6 +1777,7 @@ fn reduction_models(ctx: &mut Ctx, rng: &mut Sm64, ninst: usize) {
                 let o: Array2<f64> = m.predict(&pool);
                 let w = m.components().t().to_owned();
                 aff_case(ctx, "pca", 0, &m.mean().to_vec(), &[], &w, &vec![0.0; w.ncols()], &pool, &rows_of(&o.view()), &[]);
+                mat_pca(ctx, "pca", &m, &m.mean().to_owned(), &m.components().to_owned(), &pool);
                 let sc = (1.0 + maxabs(&m.mean().to_vec())) * w.iter().fold(0.0f64, |a, v| a.max(v.abs()));
                 let pred = mk_pred!(m, Array2<f64>, f64, view);
                 metamorph(ctx, rng, "pca", &format!("p={} k={}", p, k), &pred, &pool, &Xl::real(sc));
@@ -1532,6 +1800,7 @@ fn reduction_models(ctx: &mut Ctx, rng: &mut Sm64, ninst: usize) {
                 assert!(coef == *m.coefficients(), "bincode image of PlsRegression: coefficients differ from the accessor");
                 let o: Array2<f64> = m.predict(&pool);
                 aff_case(ctx, "pls", 0, &xm, &xs, &coef, &ym, &pool, &rows_of(&o.view()), &[]);
+                mat_pls(ctx, "pls", &m, &xm, &xs, &coef, &ym, &pool);
                 let sc = m.coefficients().iter().fold(0.0f64, |a, v| a.max(v.abs())) * 8.0 + 8.0;
                 let pred = mk_pred!(m, Array2<f64>, f64, view);
                 metamorph(ctx, rng, "pls", &format!("p={} components={} targets={}", p, kc, t), &pred, &pool, &Xl::real(sc));
